@@ -1,1 +1,108 @@
 //! verification hooks used by the check of property C14
+//!
+//! `Number` and the parser are crate-private; these wrappers only call them.
+
+use crate::number::Number;
+use crate::pretty_print::FormatOptions;
+use pretty_dtoa::FmtFloatConfig;
+
+fn options(digit_separator: &str, threshold: usize, significant_digits: usize) -> FormatOptions {
+    FormatOptions {
+        digit_separator: digit_separator.to_string(),
+        digit_grouping_threshold: threshold,
+        significant_digits,
+        ..FormatOptions::default()
+    }
+}
+
+/// `Number(f64::from_bits(bits)).pretty_print_with(options)`
+pub fn number_pretty(
+    bits: u64,
+    digit_separator: &str,
+    threshold: usize,
+    significant_digits: usize,
+) -> String {
+    Number::from_f64(f64::from_bits(bits))
+        .pretty_print_with(&options(digit_separator, threshold, significant_digits))
+        .to_string()
+}
+
+/// Description of a `FmtFloatConfig` (the fields that matter to numbat's post-processing and to the
+/// harness): `max_sig_digits`, `max_decimal_digits`, `min_decimal_digits`, e-breaks, flags.
+pub fn describe_config(c: &FmtFloatConfig) -> String {
+    format!(
+        "max_sig={:?} min_sig={:?} max_dec={:?} min_dec={:?} upper_e={} lower_e={} round={:?} force_e={} force_no_e={} point_zero={} radix={:?}",
+        c.max_sig_digits,
+        c.min_sig_digits,
+        c.max_decimal_digits,
+        c.min_decimal_digits,
+        c.upper_e_break,
+        c.lower_e_break,
+        c.round_mode,
+        c.force_e_notation,
+        c.force_no_e_notation,
+        c.add_point_zero,
+        c.radix_point
+    )
+}
+
+/// The `FmtFloatConfig` that `Number::pretty_print_with_dtoa_config` builds when no override is
+/// given (copied from there; `number.rs` builds it inline).
+pub fn default_dtoa_config(significant_digits: usize) -> FmtFloatConfig {
+    FmtFloatConfig::default()
+        .max_significant_digits(significant_digits as u8)
+        .add_point_zero(false)
+        .lower_e_break(-6)
+        .upper_e_break(6)
+        .round()
+}
+
+/// The `FmtFloatConfig` of `Quantity::pretty_print_with_precision` (copied from there).
+pub fn precision_dtoa_config(precision: i8) -> FmtFloatConfig {
+    FmtFloatConfig::default()
+        .min_decimal_digits(precision)
+        .max_decimal_digits(precision)
+        .add_point_zero(false)
+        .force_no_e_notation()
+        .round()
+}
+
+/// The string the external crate `pretty_dtoa` returns for this value and configuration.
+pub fn dtoa_raw(bits: u64, config: FmtFloatConfig) -> String {
+    pretty_dtoa::dtoa(f64::from_bits(bits), config)
+}
+
+/// `Number::pretty_print_with_dtoa_config(default options, Some(config))`: the override path.
+pub fn number_pretty_with_config(bits: u64, config: FmtFloatConfig) -> String {
+    Number::from_f64(f64::from_bits(bits))
+        .pretty_print_with_dtoa_config(&FormatOptions::default(), Some(config))
+        .to_string()
+}
+
+/// The scalar as a `Value`, to be displayed through the public `Value::pretty_print_with`.
+pub fn scalar_value(bits: u64) -> crate::value::Value {
+    crate::value::Value::Quantity(crate::quantity::Quantity::from_scalar(f64::from_bits(bits)))
+}
+
+/// Runs the real tokenizer and parser on `code`. `Some((negated, bits))` iff the input is exactly
+/// one expression statement that is a numeric literal (number token, `inf` or `NaN`), optionally
+/// under one unary minus; `bits` are those of the literal's value (before negation).
+pub fn parse_single_literal(code: &str) -> Option<(bool, u64)> {
+    use crate::ast::{Expression, Statement, UnaryOperator};
+    let statements = crate::parser::parse(code, 0).ok()?;
+    if statements.len() != 1 {
+        return None;
+    }
+    match &statements[0] {
+        Statement::Expression(Expression::Scalar(_, n)) => Some((false, n.to_f64().to_bits())),
+        Statement::Expression(Expression::UnaryOperator {
+            op: UnaryOperator::Negate,
+            expr,
+            ..
+        }) => match expr.as_ref() {
+            Expression::Scalar(_, n) => Some((true, n.to_f64().to_bits())),
+            _ => None,
+        },
+        _ => None,
+    }
+}
